@@ -8,4 +8,7 @@ func registerMore() {
 	commands["pots-one"] = cmdPotsOne
 	commands["rank-table"] = cmdRankTable
 	commands["holdem-deal"] = cmdHoldemDeal
+	commands["seat-random"] = cmdSeatRandom
+	commands["seat-replay"] = cmdSeatReplay
+	commands["seat-explore"] = cmdSeatExplore
 }
